@@ -45,6 +45,11 @@ func c04Reclaim() {
 		p := &prod{}
 		for k := simrt.DrawRange(1, 3*simrt.Scale()); k > 0; k-- {
 			n := simrt.DrawRange(1, 3)
+			if i == 0 && k == 1 && simrt.Chance(1, 8) {
+				// a backlog of a size at which "a few values" is a small fraction of the buffer
+				n = simrt.DrawRange(40, 200)
+				simrt.Probe("backlog_batch")
+			}
 			p.batches = append(p.batches, n)
 			p.pauses = append(p.pauses, drawPause())
 			total += n
